@@ -67,9 +67,18 @@ def toks(exprs):
     return out
 
 
+_FRESH = __import__('re').compile(r'^x\d+__fresh$')
+
+
+def norm_fresh(tk):
+    """tokens with x<id>__fresh names renamed by first occurrence (digests are taken modulo this renaming: F18)"""
+    ren = {}
+    return [ren.setdefault(t, f'x#{len(ren)}__fresh') if _FRESH.match(t) else t for t in tk]
+
+
 def dig(exprs):
     try:
-        return hashlib.sha1('\x00'.join(toks(exprs)).encode()).hexdigest()[:16]
+        return hashlib.sha1('\x00'.join(norm_fresh(toks(exprs))).encode()).hexdigest()[:16]
     except Exception as e:  # noqa
         return f'undigestable:{type(e).__name__}'
 
@@ -106,12 +115,14 @@ nodeio.write_smtlib_to_file = write_smtlib_to_file
 
 # ---- every test
 _orig_check_exprs = checker.check_exprs
+_last_check = {}
 
 
 def check_exprs(exprs):
     if WD and os.getpid() != MAIN_PID:
         time.sleep(_rnd.randint(0, WD) / 1000.0)
     d = dig(exprs)
+    _last_check['digest'] = d
     try:
         r = _orig_check_exprs(exprs)
     except BaseException as e:
@@ -186,11 +197,12 @@ _OrigConsumer = sh.Consumer
 class Consumer(_OrigConsumer):
     def check(self, task):
         import pickle
+        _last_check.pop('digest', None)
         res = super().check(task)
         success, t = pickle.loads(res)
         log('worker', nodeid=task.nodeid, name=task.name, base=hashlib.sha1(task.exprs).hexdigest()[:12],
             simp=hashlib.sha1(task.simp).hexdigest()[:12], success=success, aborted=(t.runtime is None and not success),
-            cand=dig(t.exprs) if success else None)
+            cand=dig(t.exprs) if success else _last_check.get('digest'))
         return res
 
 
